@@ -31,54 +31,73 @@ out of reach for static analysis without a solver.
 
 
 def run(ctx):
+    from ..astutil import bound_names, loop_targets, one
+
     repo = ctx.repo
     fn, g, where = fn_cfg(ctx, PR, f"{COLL}._do_autopack")
     plan = need(where, calling(g, attr="plan_autopack_combinations"), "plan_autopack_combinations(...)")
     ex = need(where, calling(g, attr="_execute_pack_operations"), "_execute_pack_operations(...)")
-    k2_unreachable(ctx, "R1-nothing-within-bound", where, g, {"self._max_pack_count(total_revisions) >= total_packs": True}, plan + ex, "when the pack count is within the bound nothing is planned or executed")
-    srcs = {norm(s.targets[0]): norm(s.value) for s in walk_own(fn) if isinstance(s, ast.Assign) and len(s.targets) == 1}
-    ctx.check("R1-nothing-within-bound", where, srcs.get("total_packs") == "len(self._names)" and "key_count()" in srcs.get("total_revisions", "") and "revision_index" in srcs.get("total_revisions", ""), "the bound compares the digit sum of the revision count with the number of packs", construct=f"{srcs.get('total_revisions')} / {srcs.get('total_packs')}")
-    g_in = g.assume({"self._max_pack_count(total_revisions) >= total_packs": True})
+    # role binding: locals are identified by what they hold
+    tr = one(bound_names(fn, lambda t, n: "revision_index" in t and "key_count()" in t), "total_revisions = <revision index>.key_count()", where)
+    tp = one(bound_names(fn, lambda t, n: t == "len(self._names)"), "total_packs = len(self._names)", where)
+    bound = f"self._max_pack_count({tr}) >= {tp}"
+    k2_unreachable(ctx, "R1-nothing-within-bound", where, g, {bound: True, f"{tp} <= self._max_pack_count({tr})": True, f"self._max_pack_count({tr}) < {tp}": False}, plan + ex, "when the pack count is within the bound nothing is planned or executed")
+    tests = [norm(n.ast) for n in g.nodes if n.kind == "test" and "_max_pack_count" in norm(n.ast)]
+    ctx.check("R1-nothing-within-bound", where, tests and all(t in (bound, f"{tp} <= self._max_pack_count({tr})", f"self._max_pack_count({tr}) < {tp}") for t in tests), "the bound compares the digit sum of the revision count with the number of packs", construct=str(tests))
+    g_in = g.assume({bound: True, f"{tp} <= self._max_pack_count({tr})": True, f"self._max_pack_count({tr}) < {tp}": False})
     rets = [n for n in g.nodes if n.kind == "stmt" and isinstance(n.ast, ast.Return) and n.id in g_in.reachable_from_entry()]
     ctx.check("R1-nothing-within-bound", where, len(rets) == 1 and norm(rets[0].ast.value) == "None", "within the bound _do_autopack returns None (nothing packed)")
-    skip = [n for n in walk_own(fn) if isinstance(n, ast.If) and norm(n.test) == "revision_count == 0" and any(isinstance(b, ast.Continue) for b in n.body)]
+    rc = one(bound_names(fn, lambda t, n: t.endswith(".get_revision_count()")), "revision_count = pack.get_revision_count()", where)
+    skip = [n for n in walk_own(fn) if isinstance(n, ast.If) and norm(n.test) in (f"{rc} == 0", f"not {rc}") and any(isinstance(b, ast.Continue) for b in n.body)]
     ctx.check("R1-empty-packs-left-alone", where, len(skip) == 1, "packs without revisions are not handed to the planner")
+    eps = [call_recv(c) for c in calls_in(fn) if call_attr(c) == "append" and c.args and isinstance(c.args[0], ast.Tuple) and len(c.args[0].elts) == 2 and norm(c.args[0].elts[0]) == rc]
+    pd = bound_names(fn, lambda t, n: t == f"self.pack_distribution({tr})")
     args = [norm(a) for i in plan for c in g.nodes[i].calls() if call_attr(c) == "plan_autopack_combinations" for a in c.args]
-    ctx.check("R1-planner-arguments", where, args == ["existing_packs", "pack_distribution"] and "self.pack_distribution(total_revisions)" == srcs.get("pack_distribution"), "the planner gets (revision count, pack) pairs and the distribution for the total revision count")
+    ctx.check("R1-planner-arguments", where, len(eps) == 1 and len(pd) == 1 and args == [eps[0], pd[0]], "the planner gets (revision count, pack) pairs and the distribution for the total revision count", construct=str(args))
 
     fp = repo.func(PR, f"{COLL}.plan_autopack_combinations")
     wp = f"{PR}:{COLL}.plan_autopack_combinations"
+    # the final accumulation loop: `for a, b in <po>: A += a; B.extend(b)`
+    acc = None
+    for n in walk_own(fp):
+        if isinstance(n, ast.For) and isinstance(n.target, ast.Tuple) and len(n.target.elts) == 2 and len(n.body) == 2:
+            a_, b_ = (norm(e) for e in n.target.elts)
+            s0, s1 = n.body
+            if isinstance(s0, ast.AugAssign) and isinstance(s0.op, ast.Add) and norm(s0.value) == a_ and isinstance(s1, ast.Expr) and isinstance(s1.value, ast.Call) and call_attr(s1.value) == "extend" and [norm(x) for x in s1.value.args] == [b_]:
+                acc = (norm(n.iter), norm(s0.target), call_recv(s1.value))
+    ctx.check("R2-count-is-sum-of-combined", wp, acc is not None, "the count and the pack list of the combination are accumulated together from the same (count, packs) operation", message="the reported revision count and the list of combined packs are no longer accumulated from the same operations")
+    po, A, B = acc if acc else ("?", "?", "?")
     rets = [norm(r.value) for r in walk_own(fp) if isinstance(r, ast.Return)]
     shapes = set(rets)
-    ctx.check("R2-return-shapes", wp, shapes == {"[]", "[[final_rev_count, final_pack_list]]"}, f"returns are [] or a single combination: {sorted(shapes)}", construct=str(sorted(shapes)), message=f"plan_autopack_combinations can return {sorted(shapes)}: not 'nothing or a single combination'")
+    ctx.check("R2-return-shapes", wp, shapes == {"[]", f"[[{A}, {B}]]"}, f"returns are [] or a single combination: {sorted(shapes)}", construct=str(sorted(shapes)), message=f"plan_autopack_combinations can return {sorted(shapes)}: not 'nothing or a single combination'")
     blocks = _blocks(fp)
-    # final accumulation paired over the same loop tuple
-    loops = [n for n in walk_own(fp) if isinstance(n, ast.For) and norm(n.iter) == "pack_operations"]
-    ok = len(loops) == 1 and isinstance(loops[0].target, ast.Tuple) and len(loops[0].target.elts) == 2
-    if ok:
-        a, b = (norm(e) for e in loops[0].target.elts)
-        body = [norm(s) for s in loops[0].body]
-        ok = f"final_rev_count += {a}" in body and f"final_pack_list.extend({b})" in body and len(body) == 2
-    ctx.check("R2-count-is-sum-of-combined", wp, ok, "final_rev_count and final_pack_list are accumulated together from the same (count, packs) operation", message="the reported revision count and the list of combined packs are no longer accumulated from the same operations")
     pops = [s for s in walk_own(fp) if isinstance(s, ast.Assign) and isinstance(s.value, ast.Call) and call_attr(s.value) == "pop" and isinstance(s.targets[0], ast.Tuple)]
     ok = len(pops) == 1
     if ok:
         n_, p_ = (norm(e) for e in pops[0].targets[0].elts)
-        paired = [blk for blk in blocks if any(norm(s) == f"pack_operations[-1][0] += {n_}" for s in blk)]
-        ok = len(paired) == 1 and any(norm(s) == f"pack_operations[-1][1].append({p_})" for s in paired[0])
-        other = [norm(s) for blk in blocks for s in blk if isinstance(s, (ast.Expr, ast.AugAssign, ast.Assign)) and ("pack_operations[-1][1].append" in norm(s) or "pack_operations[-1][0] +=" in norm(s)) and blk is not (paired[0] if paired else None)]
+        paired = [blk for blk in blocks if any(norm(s) == f"{po}[-1][0] += {n_}" for s in blk)]
+        ok = len(paired) == 1 and any(norm(s) == f"{po}[-1][1].append({p_})" for s in paired[0])
+        other = [norm(s) for blk in blocks for s in blk if isinstance(s, (ast.Expr, ast.AugAssign, ast.Assign)) and (f"{po}[-1][1].append" in norm(s) or f"{po}[-1][0] +=" in norm(s)) and blk is not (paired[0] if paired else None)]
         ok = ok and not other
     ctx.check("R2-count-is-sum-of-combined", wp, ok, "each pack added to the pending combination adds its own revision count in the same block", message="a pack can be added to the combination without its revision count (or vice versa)")
-    inits = [norm(s.value) for s in walk_own(fp) if isinstance(s, ast.Assign) and norm(s.targets[0]) in ("final_rev_count", "final_pack_list")]
+    inits = [norm(s.value) for s in walk_own(fp) if isinstance(s, ast.Assign) and norm(s.targets[0]) in (A, B)]
     ctx.check("R2-count-is-sum-of-combined", wp, sorted(inits) == ["0", "[]"], "the accumulators start at 0 and []")
     early = [n for n in walk_own(fp) if isinstance(n, ast.If) and norm(n.test) == "len(existing_packs) <= len(pack_distribution)"]
     ctx.check("R2-return-shapes", wp, len(early) == 1 and norm(early[0].body[0]) == "return []", "nothing is planned when there are no more packs than distribution slots")
+    # ---- R3 -----------------------------------------------------------------
     fm = repo.func(PR, f"{COLL}._max_pack_count")
-    body = norm(fm)
-    ok = "digits = str(total_revisions)" in body and "result += int(digit)" in body and any(isinstance(n, ast.If) and norm(n.test) == "not total_revisions" and norm(n.body[0]) == "return 1" for n in walk_own(fm))
+    ds = bound_names(fm, lambda t, n: t == "str(total_revisions)")
+    ok = len(ds) == 1
+    if ok:
+        lt = loop_targets(fm, lambda t, n: t == ds[0])
+        sums = [s_ for s_ in walk_own(fm) if isinstance(s_, ast.AugAssign) and isinstance(s_.op, ast.Add) and lt and norm(s_.value) == f"int({lt[0][0]})"]
+        rets = [norm(r.value) for r in walk_own(fm) if isinstance(r, ast.Return)]
+        ok = len(lt) == 1 and len(sums) == 1 and sorted(rets) == sorted(["1", norm(sums[0].target)]) and any(isinstance(n, ast.If) and norm(n.test) == "not total_revisions" and norm(n.body[0]) == "return 1" for n in walk_own(fm))
+        ok = ok and [norm(s_.value) for s_ in walk_own(fm) if isinstance(s_, ast.Assign) and norm(s_.targets[0]) == norm(sums[0].target)] == ["0"]
     ctx.check("R3-digit-sum", f"{PR}:{COLL}._max_pack_count", ok, "_max_pack_count is the decimal digit sum (1 for an empty repository)")
     fe = repo.func(PR, f"{COLL}._execute_pack_operations")
-    ctx.check("R3-empty-operations-skipped", f"{PR}:{COLL}._execute_pack_operations", any(isinstance(n, ast.If) and norm(n.test) == "len(packs) == 0" and any(isinstance(b, ast.Continue) for b in n.body) for n in walk_own(fe)), "an operation without packs is skipped by the executor")
+    lt = loop_targets(fe, lambda t, n: t == "pack_operations")
+    ctx.check("R3-empty-operations-skipped", f"{PR}:{COLL}._execute_pack_operations", len(lt) >= 1 and len(lt[0]) == 2 and any(isinstance(n, ast.If) and norm(n.test) in (f"len({lt[0][1]}) == 0", f"not {lt[0][1]}") and any(isinstance(b, ast.Continue) for b in n.body) for n in walk_own(fe)), "an operation without packs is skipped by the executor")
 
 
 MUTANTS = [
